@@ -206,6 +206,29 @@ def _get_part(mod, name):
     raise HarnessError("no part %s in %s" % (name, mod.__name__))
 
 
+def run_oracle(part, case, stats):
+    """Calls the part's oracle.  The generators produce inputs of the property's domain only and every exception a property
+    allows is caught by its oracle, so an exception that escapes from *library* code is a violation of the property ("handled,
+    not crashed"), not a harness fault; one that is raised by harness code stays a harness error."""
+    try:
+        return part.oracle(case, stats)
+    except Violation:
+        raise
+    except Exception as e:
+        import mofun
+        lib = os.path.dirname(os.path.abspath(mofun.__file__)) + os.sep
+        here = os.path.dirname(os.path.dirname(os.path.abspath(__file__))) + os.sep
+        for fr in reversed(traceback.extract_tb(e.__traceback__)):
+            f = os.path.abspath(fr.filename)
+            if f.startswith(lib):
+                raise Violation("exception-in-library", "%s: %r raised in %s:%d (%s) for an input of the property's domain" %
+                                (type(e).__name__, e, os.path.basename(f), fr.lineno, fr.name),
+                                data={"exc": type(e).__name__, "site": "%s:%s" % (os.path.basename(f), fr.name)})
+            if f.startswith(here):
+                break
+        raise
+
+
 def _worker(args):
     """Runs in a pool process.  Returns a dict with stats and (optionally) a failure."""
     prop, part_name, tier, seed, widx, n, t_end, active_known, payload = args
@@ -222,7 +245,7 @@ def _worker(args):
                     continue
                 stats.evaluations += 1
                 try:
-                    part.oracle(case, stats)
+                    run_oracle(part, case, stats)
                 except Violation as v:
                     fid = match_known(mod, active_known, part_name, case, v)
                     if fid:
@@ -259,7 +282,7 @@ def _run_hyp(mod, part, tier, seed, widx, n, t_end, active_known, stats):
             return
         stats.evaluations += 1
         try:
-            part.oracle(case, stats)
+            run_oracle(part, case, stats)
         except Violation as v:
             fid = match_known(mod, active_known, part.name, case, v)
             if fid:
@@ -384,7 +407,7 @@ def replay_file(prop, path, quiet=True):
         _quiet()
     try:
         try:
-            part.oracle(body["case"], Stats())
+            run_oracle(part, body["case"], Stats())
         except Violation as v:
             if match_known(mod, active, part.name, body["case"], v):
                 return None
